@@ -33,13 +33,15 @@ FAMS = ['constant', 'identity', 'monomial', 'legendre', 'sin', 'cos', 'gauss', '
 # user-defined basis functions R^d -> R ("all implemented basis functions should inherit from Function"): written the
 # way the documentation defines them, as maps of ONE point t (a vector of length d) to a number; they reduce over the
 # whole vector without an axis argument, so they are only correct when the library evaluates them point by point
-USER_FAMS = ['u_norm2', 'u_radial', 'u_pair', 'u_maxabs']
+USER_FAMS = ['u_norm2', 'u_radial', 'u_pair', 'u_maxabs', 'u_rbf']
+RBF_CENTRES = [[0.3, -0.2, 0.5, 0.1, -0.4, 0.2], [-0.6, 0.4, 0.1, -0.3, 0.5, 0.0], [0.0, 0.8, -0.7, 0.2, 0.1, -0.5]]      # (array-valued parameter of the radial basis functions)
 
 
 class UserFunction(tdt.Function):
-    def __init__(self, kind, index=0):
+    def __init__(self, kind, index=0, centre=0):
         super().__init__()
         self.kind, self.index = kind, index
+        self.centre = np.array(RBF_CENTRES[centre % 3])          # functions of one class that differ in an ARRAY-valued attribute only
 
     def __call__(self, t):
         self.check_call_input(t)
@@ -50,6 +52,8 @@ class UserFunction(tdt.Function):
             return float(np.exp(-0.5 * np.linalg.norm(t) ** 2))
         if self.kind == 'u_pair':
             return float(t[self.index] * t[(self.index + 1) % len(t)])
+        if self.kind == 'u_rbf':
+            return float(np.exp(-np.sum((t - self.centre[:len(t)]) ** 2)))
         return float(np.max(np.abs(t)))
 
 
@@ -60,6 +64,9 @@ def fn_spec(draw, d, user=True, indicator=False):
     if fam == 'indicator':
         a = draw(st.sampled_from([-1.0, -0.5, 0.0, -2.0]))
         s['a'], s['b'] = a, a + draw(st.sampled_from([0.5, 1.0, 2.0, 4.0]))
+    if fam == 'u_rbf':
+        s['centre'] = draw(st.integers(0, 2))
+        s['index'] = 0
     if fam == 'monomial':
         s['exponent'] = draw(st.integers(0, 4))
     elif fam == 'legendre':
@@ -75,7 +82,7 @@ def fn_spec(draw, d, user=True, indicator=False):
 def make_fn(s):
     fam, i = s['family'], s['index']
     if fam in USER_FAMS:
-        return UserFunction(fam, i)
+        return UserFunction(fam, i, s.get('centre', 0))
     if fam == 'indicator':
         return tdt.IndicatorFunction(i, s['a'], s['b'])
     if fam == 'constant':
@@ -107,6 +114,9 @@ def ref_value(s, x):
         return float(x[s['index']]) * float(x[(s['index'] + 1) % len(x)])
     if fam == 'u_maxabs':
         return max(abs(float(v)) for v in x)
+    if fam == 'u_rbf':
+        cc = RBF_CENTRES[s.get('centre', 0) % 3]
+        return float(np.exp(-sum((float(v) - cc[j]) ** 2 for j, v in enumerate(x))))
     if fam == 'indicator':
         return 1.0 if (s['a'] <= t < s['b']) else 0.0
     if fam == 'constant':
@@ -348,6 +358,9 @@ def hocur_case(draw):
     return {'d': d, 'm': m, 'phi': phi, 'seed': draw(gen.SEED), 'duplicate': draw(st.sampled_from([False, False, True])), 'x_scale_exp': x_scale_exp,
             'ranks_extra': draw(st.integers(0, 3)), 'repeats': draw(st.integers(1, 3)), 'multiplier': draw(st.sampled_from([2, 3, 10])),
             'ranks_list': draw(st.booleans()), 'reuse_ranks': draw(st.booleans()),
+            # one data entry exactly 0 (known finding F28: the cross approximation of the unchanged tree fails on tensors with exact
+            # zeros; the class is generated so that the finding is met and counted, failures inside it are attributed to F28)
+            'exact_zero': draw(st.sampled_from([False] * 9 + [True])),
             'data_form': draw(st.sampled_from(['float', 'float', 'strided', 'fortran', 'readonly']))}
 
 
@@ -356,6 +369,10 @@ def body_hocur(case):
     rescaled = bool(case.get('x_scale_exp', 0)) and case.get('data_form', 'float') == 'float'
     if rescaled:
         x = np.asarray(x, dtype=float) * 10.0 ** case['x_scale_exp']
+    onezero = bool(case.get('exact_zero')) and case.get('data_form', 'float') == 'float' and case['m'] >= 2
+    if onezero:
+        x = np.array(x, dtype=float)
+        x[case['seed'] % x.shape[0], (case['seed'] // 5) % case['m']] = 0.0
     phi = [[make_fn(s) for s in f] for f in case['phi']]
     vals = [np.array([[ref_value(s, x[:, j]) for j in range(case['m'])] for s in f]) for f in case['phi']]
     want = psi_ref(vals)
@@ -368,7 +385,10 @@ def body_hocur(case):
         assume(sv[0] > 0 and not np.any((sv > 1e-13 * sv[0]) & (sv < 1e-4 * sv[0])))
     # ... and it starts from a few sampled fibres: entries 1e-16 next to entries of size one (x = 7e-4 under x^4 times x) make a
     # sampled cross numerically zero although every unfolding has one clean singular value (found by the thorough tier)
-    assume(float(np.min(np.abs(want))) > 1e-9 * float(np.max(np.abs(want))))
+    nzw_ = np.abs(want[want != 0]) if onezero else np.abs(want)
+    assume(nzw_.size > 0 and float(np.min(nzw_)) > 1e-9 * float(np.max(np.abs(want))))
+    if not onezero:
+        assume(not case.get('exact_zero'))          # (the flag without its precondition is not a case of the class)
     r = case['m'] + case['ranks_extra']
     ranks = [1] + [r] * p + [1] if case['ranks_list'] else r
     if case['ranks_list'] and case.get('reuse_ranks') and case['m'] >= 2:
@@ -394,6 +414,8 @@ def body_hocur(case):
         lab.add('basis_used_before')
     if rescaled:
         lab.add('rescaled_data')
+    if onezero:
+        lab.add('exact_zero_in_data')
     lab.add('repeats%d' % case['repeats'])
     return lab
 
